@@ -5,7 +5,7 @@ import ast
 from typing import Any, Callable, Optional, Tuple
 
 from .env import Env, compile_fn, execute
-from .kernel import Chooser, DfsStats, dfs_answers
+from .kernel import Chooser, DfsStats, dfs_answers, guarded
 from .sweep import exc_fingerprint
 
 
@@ -35,16 +35,16 @@ def roundtrip(src: str, upto: str = "compile") -> Pipe:
         stage = "AST2SCFG"
         # hand the parsed tree in so that node identities are known to the census (C08/C10)
         tr = AST2SCFGTransformer(tree)
-        scfg = tr.transform_to_SCFG()
+        scfg = guarded(tr.transform_to_SCFG)
         p.scfg = scfg
         if upto == "AST2SCFG":
             return p
         stage = "restructure"
-        scfg.restructure()
+        guarded(scfg.restructure)
         if upto == "restructure":
             return p
         stage = "SCFG2AST"
-        p.fdef = SCFG2ASTTransformer().transform(original=tree[0], scfg=scfg)
+        p.fdef = guarded(SCFG2ASTTransformer().transform, original=tree[0], scfg=scfg)
         stage = "unparse"
         p.text = ast.unparse(p.fdef)
         stage = "compile"
